@@ -640,7 +640,10 @@ class ModelBase(object):
         """
         Returns str(value). This should be overridden if this is not enough.
         """
-        return six.binary_type(value)
+        if six.PY2:
+            return six.binary_type(value)
+        # bytes(obj) is not str(obj).encode() in Python 3
+        return six.text_type(value).encode('utf8')
 
     @classmethod
     def to_unicode(cls, value):
